@@ -515,8 +515,45 @@ def _check_rewrites(P: Program, rep: Report, funcs: List[FuncInfo]) -> None:  # 
     rep.floor("R24.4 rewrite sites + premises", n_sites, 1)
 
 
+def _vtl_literals(text: str) -> List[str]:
+    """string constants and quoted names of a VTL text, as the lexer reads them: `"` up to the next `"` (no escapes), `'` up to the next `'`"""
+    out, i = [], 0
+    while i < len(text):
+        ch = text[i]
+        if ch in ('"', "'"):
+            j = text.find(ch, i + 1)
+            if j < 0:
+                out.append(text[i:])
+                break
+            out.append(text[i:j + 1])
+            i = j + 1
+        else:
+            i += 1
+    return out
+
+
+SCANNER_INPUTS = ['f("(a)", x)', 'g("a" || "(b)")', 'h(\'na(me\', 1)', 'k("\\" || " (raw)")', 'k("\\") + ("(x)")', 'm("a\\b(c", (y))', 'n("" || "(" || ")")',
+                  'p(\'a b\'#\'c(d\', "e)")', 'q("it\'s (so)")', "r('q\"(' + (z))"]
+
+
 def _check_scanner(rep: Report, f: FuncInfo) -> None:
-    """_break_parentheses: the character scanner must decide 'inside quotes' before it looks at parentheses."""
+    """_break_parentheses evaluated on expressions whose string constants / quoted names hold parentheses, backslashes and the other quote
+    character: laying the expression out must not change any literal (VTL string constants have no escape sequences: `"\\"` is complete)."""
+    from sa.e6 import Interp as _I, Raised as _R, Unmodelled as _U
+    evaluated = 0
+    try:
+        for text in SCANNER_INPUTS:
+            got = str(_I(program(), max_steps=20000).call(f, {f.params[0]: text}))
+            evaluated += 1
+            rep.instance("R24.4", f"scanner/{text[:24]}", nontrivial=True, sample={"input": text, "laid_out": got} if evaluated <= 3 else None)
+            if _vtl_literals(got) != _vtl_literals(text) or "".join(got.split()) != "".join(text.split()) and _vtl_literals(got) == _vtl_literals(text) and \
+                    "".join(c for c in got if c not in "\n\t ") != "".join(c for c in text if c not in "\n\t "):
+                rep.add(_finding("R24.4", f"scanner/_break_parentheses/{SCANNER_INPUTS.index(text)}", f, f.node.lineno,
+                                 f"laying out `{text}` gives {got!r}: the string constants / quoted names read back from it are {_vtl_literals(got)}, the expression has "
+                                 f"{_vtl_literals(text)} - a line break was inserted into a literal (VTL constants have no escape sequences, so a backslash before a quote does not continue it)"))
+        return
+    except (_R, _U):
+        pass  # not evaluable: fall back to the structural form of the rule
     loops = [n for n in ast.walk(f.node) if isinstance(n, ast.For)]
     rep.instance("R24.4", "scanner/_break_parentheses")
     ok = False
